@@ -652,7 +652,78 @@ def expand(unit):
         out.append(ln)
         i += 1
     text = '\n'.join(out) + '\n'
+    text = autoconst(text, fns)
     return text, fns
+
+
+INT_TYPES = ('usize', 'u8', 'u16', 'u32', 'u64', 'isize', 'i8', 'i16', 'i32', 'i64')
+
+
+def autoconst(text, fns):
+    """T9: a pasted body may use a module-level integer constant of its source file that the template does not
+    declare (e.g. one introduced by a later change).  Such a `const NAME: <int> = <literal>;` is pasted mechanically
+    (as `exec const` with its value as postcondition) in front of the enclosing item; anything else is left to rustc
+    (unknown name -> tool error -> exit 2)."""
+    defined = set(re.findall(r'\bconst\s+([A-Z][A-Z0-9_]*)\b', text)) | set(re.findall(r'\bstatic\s+(?:mut\s+)?([A-Z][A-Z0-9_]*)', text))
+    inserts = []
+    for idx, f in enumerate(fns):
+        body = rsrc.blank(f._new_body)
+        ids = set(m.group(2) for m in re.finditer(r'(?<!\w)([.:]*)([A-Z][A-Z0-9_]{2,})\b(?!\s*(?:::|!|\())', body)
+                  if not m.group(1).endswith(':') and m.group(1) != '.')
+        for name in sorted(ids - defined):
+            parts = f.source.split(' :: ')
+            file, path = parts[0], parts[1:]
+            mods = [p for p in path if p.startswith('mod ')]
+            it = None
+            for d in range(len(mods), -1, -1):
+                try:
+                    it = source(file).find(mods[:d] + ['const ' + name])
+                    break
+                except LostAnchor:
+                    continue
+            if it is None:
+                continue
+            mm = re.match(r'\s*(?:pub(?:\([^)]*\))?\s+)?const\s+' + name + r'\s*:\s*(\w+)\s*=\s*([0-9][0-9a-fA-Fx_]*?)(?:_?(?:[ui](?:8|16|32|64|size)))?\s*;\s*$', re.sub(r'^(?:\s*#\[[^\]]*\])*', '', rsrc.blank(it.text())), re.S)
+            if not mm or mm.group(1) not in INT_TYPES:
+                continue
+            mk = text.index('//@@pasted %d\n' % idx)
+            pos, _ = template_sig_before(text[:mk], f.name)
+            clean = rsrc.blank(text[:pos])
+            # climb out of impl / trait blocks
+            while True:
+                depth, k = 0, len(clean) - 1
+                while k >= 0:
+                    if clean[k] == '}':
+                        depth += 1
+                    elif clean[k] == '{':
+                        if depth == 0:
+                            break
+                        depth -= 1
+                    k -= 1
+                if k < 0:
+                    break
+                j = max(clean.rfind(';', 0, k), clean.rfind('}', 0, k), clean.rfind('{', 0, k)) + 1
+                hdr = clean[j:k]
+                if re.search(r'\b(impl|trait)\b', hdr):
+                    pos = j + (len(hdr) - len(hdr.lstrip()))
+                    clean = clean[:pos]
+                    continue
+                break
+            # in front of the comment / attribute / marker lines that belong to the item
+            ls = text.rfind('\n', 0, pos) + 1
+            while ls > 0:
+                pl = text.rfind('\n', 0, ls - 1) + 1
+                prev = text[pl:ls].strip()
+                if prev.startswith('//') or prev.startswith('#['):
+                    ls = pl
+                else:
+                    break
+            inserts.append((ls, 'pub exec const %s: %s ensures %s == %s { %s }   // T9: pasted from %s\n' % (name, mm.group(1), name, mm.group(2), mm.group(2), file)))
+            f.rewrites.append(('T9', 'module-level constant %s = %s pasted mechanically from %s' % (name, mm.group(2), file)))
+            defined.add(name)
+    for pos, txt in sorted(inserts, reverse=True):
+        text = text[:pos] + txt + text[pos:]
+    return text
 
 
 FN_DECL_RE = re.compile(r'\b(?:(spec|proof|exec)\s+)?(?:const\s+)?fn\s+([A-Za-z_]\w*)')
